@@ -131,6 +131,16 @@ type Run struct {
 	notes    []string
 }
 
+var current *Run
+
+// Outcome records one observed result value of the code under test in the
+// current run's outcome set (vacuity guard: many cases, one outcome = nothing collided).
+func Outcome(s string) {
+	if current != nil {
+		current.Outcomes.Add(s)
+	}
+}
+
 // NewRun creates a run; budget is the internal deadline after which
 // enumerations should stop and report exhaustive:false.
 func NewRun(id, tier, level string, budget time.Duration) *Run {
@@ -147,6 +157,7 @@ func NewRun(id, tier, level string, budget time.Duration) *Run {
 	}
 	r.deadline = r.start.Add(budget)
 	r.kfs = LoadKnownFindings()
+	current = r
 	return r
 }
 
